@@ -360,7 +360,8 @@ def pKwBody (d : Gen.D) : Nat → String → Bool → Expr → List Tok → Exce
   | f+1, k, isNot, bv, r2 =>
     if k == "BETWEEN" then pBetween d f isNot bv r2
     else if k == "IS" then
-      (match pCompute d f (moveStrUp r2 "NOT").2 with
+      -- `is_not = is_not or scanner.search_and_move…("NOT")` (`parser.py:922`): `or` short-circuits — after a NOT in front of IS a second NOT is not consumed
+      (match pCompute d f (if isNot then r2 else (moveStrUp r2 "NOT").2) with
        | .error e => .error e
        | .ok (av, r4) => .ok (some (.kw .is (isNot || (moveStrUp r2 "NOT").1) bv av, r4)))
     else if k == "IN" then pInBody d f isNot bv r2
